@@ -66,6 +66,7 @@ func profiles() map[string]Profile {
 	p = base
 	p.Name = "C16" // measure, mutate, measure again: counts and block enumerations across versions
 	p.Len, p.Blocks, p.Set, p.Del, p.Totals, p.Snap, p.SnapClose = 14, 12, 30, 22, 4, 3, 2
+	p.Chain = 1 // a tree that caller-chosen priorities made a path of 66-80 nodes, then measured
 	m["C16"] = p
 
 	p = base
